@@ -2,7 +2,7 @@ import vlib
 
 PROP = dict(
     id="C01",
-    corr=["Model/FsmCorr.vo", "Model/C01Corr.vo"],
+    corr=["Model/FsmCorr.vo", "Model/C01Corr.vo", "Model/C03Corr.vo", "Model/C01Validator.vo"],
     design_ref="DESIGN.md §6 C01",
     technique="Coq: invoice-checked invariant + validate-before-pay ghost, carried by a ghost-threaded engine rule through all histories with crashes; reflective table check; step-level vm_compute correspondence against the real SwapService/FSM; monitor on observed effect traces",
     level_text="Machine-checked for every state table passing a reflective check (decided on the four generated tables each run), every invoice decoder, every history the environment can produce (requests only create swaps, confirmation callbacks only for a watch registered in the current process, any environment answers, crashes after any effect + restarts from the last durable record): every RebalancePayment pays exactly the invoice of the peer's opening_tx_broadcasted message of the durable record, of a Bitcoin or protocol-7 Liquid swap, whose invoice has amount = claim amount*1000 (mod 2^64), final CLTV <= 504 / 0..29 and whose hash is the bound ClaimPaymentHash, and is preceded in the same action by ValidateTx(both pubkeys, that hash, negotiated on-chain amount, CSV 1008/10080, peer's blinding key, delivered OpeningTxHex) = true; every confirmation watch is for the announced txid/vout; every record persisted in a paying state satisfies the invoice invariant. Non-vacuity: an observed paying history satisfies the predicate, perturbed traces are rejected.",
@@ -29,9 +29,23 @@ def run(ctx):
     ctx.rules.append("scenarios of one swap driven through the real SwapService (4 roles x btc/lbtc; directed flows first, then random walks with failure injection, deviating peer messages incl. invoice amount +-1 / CLTV around the bounds / undecodable invoices, chain advances, restarts); non-trivial = more than one step; distinct by role/chain/step kinds/final state")
     ctx.absorb(res, "fsm", signature=sig,
                describe=lambda c: "a claim payment was made without the invoice / validation / confirmation conditions of C01 (role %s, chain %s)" % (c.get("role"), c.get("chain")))
+    run_validators(ctx, 150 if ctx.quick else 3000, 24 if ctx.quick else 120)
+
+
+def run_validators(ctx, n, nl, outdir=None):
+    """validator side: the REAL BitcoinOnChain / LiquidOnChain ValidateTx on generated opening transactions"""
+    d = ctx.harness("c03", outdir=outdir or (ctx.work + "/validators"),
+                    args=["-n", n, "-nl", nl, "-monitor", "c01_validator_monitor", "-imports", "From PS Require Import Model.C01Validator."])
+    if d is None:
+        return
+    res = vlib.eval_cases(d)
+    ctx.rules.append("validator family: the real BitcoinOnChain.ValidateTx / LiquidOnChain.ValidateTx on generated opening transactions (swap output alone / first / after change / after an equal-amount change / among three / twice, wrong amount, wrong script, no outputs, amount and script on DIFFERENT outputs; Liquid: blinded / explicit outputs, wrong asset, wrong blinding key); compared with the validator model of C03; monitor: accepted => one output has exactly the amount and the swap script")
+    ctx.absorb(res, "validators", signature=lambda c: "validator:accepted-an-opening-tx-without-an-output-of-the-amount-to-the-swap-script:%s" % c.get("family", "?"),
+               describe=lambda c: "the real opening-transaction validator accepted a transaction in which no single output carries the negotiated amount under the swap script (%s / %s)" % (c.get("family"), c.get("layout")))
 
 
 def search(ctx):
+    run_validators(ctx, 1500, 60, outdir=ctx.work + "/search_validators")
     d = ctx.harness("fsm", outdir=ctx.work + "/search", args=["-n", 800, "-focus", "C01"] + MON)
     if d is None:
         return
